@@ -91,13 +91,40 @@ CTT = dict(
     cover=["return"],
 )
 
-CONTRACTS = [CTT]
+# ------------------------------------------------------------------------------------------------ a throughput supplied by the runner is passed through unchanged
+MTT = dict(
+    target="esrally/driver/driver.py::ThroughputCalculator.map_task_throughput",
+    prop="C06",
+    self_type="obj[ThroughputCalculator]",
+    params={"current_samples": "list[obj[Sample]]"},
+    fields=FIELDS,
+    locals={"throughput": "list[tuple[real,real,int,opt[real],str]]"},
+    loops={0: dict(modifies_objs=["throughput"], inv=[
+        "len(throughput) == _i and ref(throughput) >= NREF0() and ref(throughput) != ref(current_samples)",
+        "forall(lambda k: implies(0 <= k and k < _i, ref(throughput[k]) >= NREF0() and throughput[k][0] == current_samples[k].absolute_time and throughput[k][1] == current_samples[k].relative_time "
+        "and throughput[k][2] == current_samples[k].sample_type))",
+        "forall(lambda k: implies(0 <= k and k < _i, isnone(throughput[k][3]) == isnone(current_samples[k].throughput) and "
+        "implies(not isnone(current_samples[k].throughput), throughput[k][3] == current_samples[k].throughput) and throughput[k][4] == f'{current_samples[k].total_ops_unit}/s'))",
+    ])},
+    returns="list[tuple[real,real,int,opt[real],str]]",
+    ensures=[
+        # one value per sample, in order, with the sample's own times and type, the runner's throughput VERBATIM and the unit '<ops unit>/s'
+        "len(result) == len(current_samples)",
+        "forall(lambda k: implies(0 <= k and k < len(current_samples), result[k][0] == current_samples[k].absolute_time and result[k][1] == current_samples[k].relative_time "
+        "and result[k][2] == current_samples[k].sample_type))",
+        "forall(lambda k: implies(0 <= k and k < len(current_samples), isnone(result[k][3]) == isnone(current_samples[k].throughput) and "
+        "implies(not isnone(current_samples[k].throughput), result[k][3] == current_samples[k].throughput) and result[k][4] == f'{current_samples[k].total_ops_unit}/s'))",
+    ],
+    cover=["return"],
+)
+
+CONTRACTS = [CTT, MTT]
 ASSUMPTIONS = [
     "exact-real arithmetic; SampleType modelled as the ints 0 (Warmup) and 1 (Normal) (it is an IntEnum)",
     "the ghost prefix-sum list PS is defined by PS[k+1] = PS[k] + total_ops(sample k): conservation is stated as total_count == old_total + PS[first index still unprocessed]",
     "calculate() hands in the new samples chained with all carried-over ones, sorted by time (that call site is not yet under contract)",
 ]
-NOT_DECIDED = ["equality of the emitted sequences between different batch cuts (bucket boundaries legitimately differ)", "calculate() grouping/sorting; map_task_throughput pass-through (not yet under contract)"]
+NOT_DECIDED = ["equality of the emitted sequences between different batch cuts (bucket boundaries legitimately differ)", "calculate() grouping/sorting (bounded stand-in only)"]
 TRUSTED = []
 
 
